@@ -3,7 +3,7 @@ import Yaql.Model.Naming
 /-!
 C12, the naming conventions and the keyword filter of `call()`.
 
-* `rstrip_idempotent`, `toCamel_fixed`, `convertParameterName_settled`, `camel_of_python`: converting a
+* `rstrip_idempotent`, `toCamel_fixed`, `toCamel_idempotent`, `convertParameterName_settled`, `camel_of_python`: converting a
   converted name again changes nothing; the camelCase name of the PythonConvention name is the camelCase
   name of the python name.
 * `filter_ignores_junk`, `call_filter_nonkeywords`: string keys of `kwargs` that are not keywords never
@@ -67,6 +67,77 @@ theorem toCamel_fixed (n : Name) (h : settled n = true) : toCamel n = n := by
   cases n with
   | nil => rfl
   | cons c r => simp [toCamel, (camelGo_fixed r h).1]
+
+theorem upper_small : ∀ n : Fin 128, isWordChar (Char.ofNat n.val) = true → (Char.ofNat n.val == '_') = false →
+    ((Char.ofNat n.val).toUpper == '_') = false := by decide
+
+theorem alnum_small (c : Char) (h : c.isAlphanum = true) : c.toNat < 128 := by
+  simp only [Char.isAlphanum, Char.isAlpha, Char.isUpper, Char.isLower, Char.isDigit, Bool.or_eq_true, Bool.and_eq_true,
+    decide_eq_true_eq] at h
+  have : c.toNat = c.val.toNat := rfl
+  rw [this]
+  rcases h with (⟨_, h⟩ | ⟨_, h⟩) | ⟨_, h⟩ <;>
+  · have := UInt32.le_iff_toNat_le.mp h
+    simp at this
+    omega
+
+
+theorem toUpper_ne_underscore (c : Char) (hw : isWordChar c = true) (hc : (c == '_') = false) :
+    (c.toUpper == '_') = false := by
+  have ha : c.isAlphanum = true := by
+    simp only [isWordChar, Bool.or_eq_true] at hw
+    rcases hw with h | h
+    · exact h
+    · simp [h] at hc
+  have hs := alnum_small c ha
+  have := upper_small ⟨c.toNat, hs⟩
+  simp only [Char.ofNat_toNat] at this
+  exact this hw hc
+
+/-- no two underscores in a row -/
+def noDouble : List Char → Bool
+  | [] => true
+  | c :: r => (!(c == '_') || match r with | [] => true | d :: _ => !(d == '_')) && noDouble r
+
+theorem settledRest_camelGo : ∀ r : List Char, noDouble r = true →
+    settledRest (camelGo false r) = true ∧
+    ((match r with | [] => true | d :: _ => !(d == '_')) = true → settledRest (camelGo true r) = true)
+  | [], _ => by simp [camelGo, settledRest]
+  | c :: r, h => by
+      simp only [noDouble, Bool.and_eq_true] at h
+      have ih := settledRest_camelGo r h.2
+      constructor
+      · cases hc : (c == '_')
+        · simp only [camelGo, hc, Bool.false_eq_true, if_false, settledRest, Bool.not_false, Bool.true_or, Bool.true_and]
+          exact ih.1
+        · simp only [camelGo, hc, if_true]
+          have h1 := h.1
+          simp only [hc, Bool.not_true, Bool.false_or] at h1
+          exact ih.2 h1
+      · intro hd
+        simp only [Bool.not_eq_true'] at hd
+        cases hw : isWordChar c
+        · have hne : (c == '_') = false := hd
+          simp only [camelGo, hw, Bool.false_eq_true, if_false, settledRest, beq_self_eq_true, Bool.not_true, Bool.false_or,
+            Bool.not_false, hne, Bool.true_or, Bool.true_and]
+          exact ih.1
+        · have := toUpper_ne_underscore c hw hd
+          simp only [camelGo, hw, if_true, settledRest, this, Bool.not_false, Bool.true_or, Bool.true_and]
+          exact ih.1
+
+theorem noDouble_tail {c : Char} {r : List Char} (h : noDouble (c :: r) = true) : noDouble r = true := by
+  simp only [noDouble, Bool.and_eq_true] at h; exact h.2
+
+/-- the camelCase name of a name without doubled underscores is settled ... -/
+theorem settled_toCamel (n : Name) (h : noDouble n = true) : settled (toCamel n) = true := by
+  cases n with
+  | nil => rfl
+  | cons c r => simp only [toCamel, settled]; exact (settledRest_camelGo r (noDouble_tail h)).1
+
+/-- ... so `_to_camel_case` is idempotent on such names (it is not in general: `a__b -> a_b -> aB`) -/
+theorem toCamel_idempotent (n : Name) (h : noDouble n = true) : toCamel (toCamel n) = toCamel n :=
+  toCamel_fixed _ (settled_toCamel n h)
+
 
 /-- a settled name without trailing underscores is a fixed point of `convert_parameter_name` under every
     convention (and without one) -/
